@@ -645,6 +645,24 @@ def check_sequence(case, ctx):
             ctx.equal(build.stacked_of(qs[i]), build.stacked_of(one.estimated_qoperation), f"sequence_qoperation_equals_single:{tomo}", f"dataset {i}")
         if np.asarray(vs[i]).shape == (mdl.N,):
             ctx.close(np.asarray(vs[i]), mdl.lstsq(f), mdl.tol_v(f), f"sequence_lstsq:{tomo}", f"dataset {i}")
+    # the result keeps answering the same after the caller has handled what it returned (re-ordered the returned list,
+    # reset a returned estimate): every read is derived from the estimated variables, not from objects handed out before
+    snap_q = [build.stacked_of(q).copy() for q in qs]
+    snap_v = [np.array(v, copy=True) for v in vs]
+    if len(qs) >= 1:
+        qs.reverse()
+        qs[0].set_zero()
+        first = rs.estimated_qoperation
+        first_stacked = build.stacked_of(first).copy()
+        first.set_zero()
+        again = rs.estimated_qoperation_sequence
+        if ctx.check(len(again) == len(snap_q), f"reread_len:{tomo}", f"{len(again)} vs {len(snap_q)}"):
+            for i, q in enumerate(again):
+                ctx.equal(build.stacked_of(q), snap_q[i], f"reread_sequence_unchanged:{tomo}", f"dataset {i}")
+        ctx.equal(first_stacked, snap_q[0], f"reread_first_unchanged:{tomo}")
+        ctx.equal(build.stacked_of(rs.estimated_qoperation), snap_q[0], f"reread_first_unchanged:{tomo}")
+        for i, v in enumerate(rs.estimated_var_sequence):
+            ctx.equal(np.asarray(v), snap_v[i], f"reread_var_unchanged:{tomo}", f"dataset {i}")
     distinct = len(fs) >= 2 and all(
         float(np.max(np.abs(fs[i] - fs[j]))) > 1e-6 for i in range(len(fs)) for j in range(i + 1, len(fs))
     )
